@@ -38,19 +38,21 @@ prop("C04", TV, "Lean 4 model + differential correspondence (proof in progress)"
 prop("C05", TV, "Lean 4 model + differential correspondence (proof in progress)",
      "Record parser model vs crate on printed ASTs, malformed families, corpus lines and all lines of <= 4 (quick) / 6 (thorough) tokens over a 12-token alphabet.",
      "Model hand-written; tie is differential.")
-prop("C06", TV, "Lean 4 model + differential correspondence (proof in progress)",
-     "Record stream of model vs crate on byte soups, mutated files, invalid UTF-8; oracle: resynchronisation at every line break, item count <= bytes, no terminator in any field, bounded-exhaustive over a 9-symbol alphabet.",
-     "Model hand-written; tie is differential.", oracle=True)
+prop("C06", "proof", "Lean 4 theorems over all byte strings (termination, count, no terminators, line-local resynchronisation) + differential correspondence",
+     "Kernel-checked theorems for every byte string: each iteration of the record iterator consumes at least one byte and leaves a suffix (so the fuel-driven definition is the Rust iterator and terminates); at most one item per input byte; no yielded name, type, argument string or header value contains a line terminator; and records(A ++ newline ++ B) = records(A) ++ records(B) for every A, B and either terminator byte, up to the unavoidable normalisation (an error line carries or lacks its terminator byte; the empty-line error that trailing terminators produce at end of input) — a truncated, binary or malformed line can only turn itself into an error. Error items with an empty line occur only last. The parser model is tied to the crate on byte soups, token soups, invalid UTF-8, huge digit runs, unterminated sourceFile headers and corpus files; the same resynchronisation law is checked on the implementation directly (bounded-exhaustive over a 9-symbol alphabet, random splits, every line split of the corpus), under catch_unwind.",
+     "No-panic is: the model is total + every protocol operation on the crate runs under catch_unwind with overflow checks on.",
+     theorems=["PG.C06_progress", "PG.C06_rest_suffix", "PG.C06_unfold", "PG.C06_nil", "PG.C06_count", "PG.C06_fields_no_terminator", "PG.C06_resync", "PG.C06_empty_err_last"], oracle=True)
 prop("C07", "proof", "Lean 4 theorems over all inputs and all lookup functions + differential correspondence",
      "Kernel-checked theorems about remapText rc rf, the one model function behind ProguardMapper::remap_stacktrace and ProguardCache::remap_stacktrace, for every input text and every class/frame lookup: the output is the in-order concatenation of the per-line renderings (first-line rule for line 0, later-line rule otherwise) — no line dropped, duplicated or reordered; each line becomes max(1, #resolved frames) segments, each ending in the one appended newline, by exactly the property's case analysis; with lookups that know nothing the output is the input with normalised terminators; the mapper's frame lookup returns nothing for an unknown class. Tied to both Rust copies by the differential run (generated traces, arbitrary Unicode, CRLF, missing final newline) and by an identity oracle on the implementation.",
      "remapText never fails in the model; the Rust fmt::Error arm is unreachable when writing into a String (trusted).",
      theorems=["PG.C07_linewise", "PG.C07_render_cases", "PG.C07_frame_count", "PG.C07_identity", "PG.C07_mapper_unknown", "PG.C07_lines_no_newline"], oracle=True)
-prop("C08", TV, "Lean 4 model + differential correspondence (proof in progress)",
-     "Typed trace remapping of model vs crate; oracle on the implementation: depth kept, every throwable remapped or kept, frames replaced or kept, print(typed) == text API on canonical traces.",
-     "Model hand-written; tie is differential.", oracle=True)
+prop("C08", "proof", "Lean 4 theorems over all traces and all lookup functions + differential correspondence",
+     "Kernel-checked theorems about remapTyped rc rf (the model function behind remap_stacktrace_typed of mapper and cache) for every trace and every class/frame lookup: same cause-chain depth; every throwable at every level is remapped or kept unchanged (none dropped); every frame is replaced by its remapped frames or kept when it does not resolve; and for every trace in canonical printed form (TraceWF) printing the typed result equals the text API's output for the printed input. Tied to both Rust copies by the differential run (structured and parsed traces, depth <= 4) and by a structural oracle on the implementation.",
+     "Canonical printed form = the well-formedness predicate TraceWF of PG/Props/C17.lean (top level has an exception or a frame, every cause has an exception, components free of their delimiters).",
+     theorems=["PG.C08_depth", "PG.C08_exception", "PG.C08_frames", "PG.C08_agrees"], oracle=True)
 prop("C09", TV, "Lean 4 model + differential correspondence (proof in progress)",
-     "Bytes of the cache writer equal the model's bytes; the crate's own self-test accepts every written file.",
-     "Model hand-written; tie is differential.", needs_layout=True)
+     "Bytes of the cache writer equal the model's bytes; an independent decoder + well-formedness predicate written in Lean from the documented format only (PG/Spec/Format.lean: magic, version, counts, strict class order, tiling of member / by-params ranges, member order, zero padding, alignment, string section length, every referenced offset a length-prefixed UTF-8 string or the absent sentinel) is run on the bytes the crate actually wrote; the crate's own self-test accepts every written file.",
+     "Model hand-written; tie is differential.", needs_layout=True, fmt=True)
 prop("C10", TV, "Lean 4 model (current + frozen pinned reader) + cross-release differential run",
      "Both releases (vendored 5.5.0 snapshot and current tree) write every mapping; both readers read both files and must agree query for query or reject with WrongVersion; models of both readers are tied to their crates.",
      "Pinned release = vendored snapshot under /verif/pinned.", oracle=True, needs_layout=True)
@@ -76,9 +78,10 @@ prop("C16", "proof", "Lean 4 theorems over the descriptor grammar (all descripto
      "Kernel-checked theorems: every valid descriptor (AST over primitives, object names without ';' and ')', arrays of any depth, any number of parameters) deobfuscates to exactly the rendered Java types for every class-lookup function; strings without '(' / ')' / return type / with an unterminated object type give none; mapper and cache agree on every string. The model function is tied to both Rust copies by the differential run (generated, corrupted, bounded-exhaustive and arbitrary strings).",
      "Proof is about the Lean model of java.rs; the tie model<->code is differential. The code is lenient beyond the property (e.g. '(XI)V'); no theorem forbids that.",
      theorems=["PG.C16_valid", "PG.C16_format", "PG.C16_none_no_open", "PG.C16_none_no_close", "PG.C16_none_no_return", "PG.C16_none_unterminated", "PG.C16_agree"])
-prop("C17", TV, "Lean 4 model + differential correspondence (proof in progress)",
-     "Parse and Display of traces, frames, throwables: model vs crate; oracle: parse(print t) == t and reprint identical on the implementation.",
-     "Model hand-written; tie is differential.", oracle=True)
+prop("C17", "proof", "Lean 4 round-trip theorems over all well-formed traces + differential correspondence",
+     "Kernel-checked theorems: for every frame / throwable / trace in the property's domain (FrameWF, ThrowableWF, TraceWF: class without spaces resp. '(', method without dots and '(', file present without colon, message absent or non-empty without surrounding Unicode whitespace, no line feed, line < 2^64, top level has an exception or a frame, every cause has an exception) parse(print x) = x, indentation by four spaces or a tab is tolerated, and printing the parsed trace gives the same text. The Lean parse/print are tied to StackTrace/StackFrame/Throwable try_parse and Display by the differential run and by a round-trip oracle on the implementation.",
+     "Hypotheses forced by the proof and not in the property text: class and method contain no '('; frames carry a file (Display prints a missing file as '<unknown>', which parses back as that string).",
+     theorems=["PG.C17_frame", "PG.C17_frame_indented", "PG.C17_throwable", "PG.C17_trace", "PG.C17_reprint"], oracle=True)
 prop("C18", "other", "Lean 4 SHA-1/UUIDv5 reference with structural theorems + independent hashlib computation",
      "The property is a defining equation, so restating it proves nothing. Lean supplies an executable SHA-1/UUIDv5 reference, kernel-checked structural theorems (definition unfolds to uuidV5(uuidV5(DNS,'guardsquare.com'), bytes); padding is whole 64-byte blocks; digest has 20 bytes; every identifier has 16 bytes with version nibble 5 and variant bits 10), and every run compares the crate's UUID with the Lean reference and with an independent hashlib computation on empty, corpus, LF/CRLF-twin and random inputs.",
      "Partial: that the crate computes this function is established differentially, not proved.",
